@@ -128,6 +128,36 @@ def harness_garbage(ctx, case):
     return out
 
 
+NEST = {'list': ('[', ']'), 'tuple': ('{a = ', '}'), 'paren': ('(', ')'), 'call-arg': ('f(', ')'), 'select-arm': ('select ("a", 0) => {a = ', '}')}
+
+
+def harness_nesting(ctx, case):
+    """bounded execution as a stand-in for termination: the number of MIR steps the real parser needs must grow (at most) linearly with
+    the nesting depth. The increments between consecutive depths may not exceed 4x the first increment (an exponential grammar blows
+    through that at depth 3..4)."""
+    from mirsym.vals import NONE
+    o, c = NEST[case['kind']]
+    steps = []
+    for d in range(1, case['depth'] + 1):
+        text = 'let x = ' + o * d + '1' + c * d + ';\n'
+        sub = interp.Ctx(ctx.prog, fuel=ctx.fuel)
+        r = sub.call('parse', [sub.call('OffsetStrIter::new', [text]), NONE])
+        if r.variant != 0:
+            raise interp.Unsupported('nesting text does not parse: %r' % text)
+        steps.append(sub.steps)
+    out = {'reached': True, 'asserts': len(steps) - 2, 'violations': []}
+    inc = [steps[i + 1] - steps[i] for i in range(len(steps) - 1)]
+    base = max(inc[0], 1)
+    for d, x in enumerate(inc[1:], start=3):
+        if x > 4 * base:
+            deep = 'let x = ' + o * 14 + '1' + c * 14 + ';\n'
+            out['violations'].append({'key': 'C04:nesting-cost:%s' % case['kind'], 'what': 'parsing cost explodes with %s nesting: MIR steps for depth 1..%d = %r (increment at depth %d is %.1fx the first)' % (case['kind'], len(steps), steps, d, x / base),
+                                      'case': {'kind': 'parse-timed', 'text': deep, 'limit_s': 20}})
+            return out
+    out['sample'] = {'kind': case['kind'], 'steps_by_depth': steps}
+    return out
+
+
 def panic_site(ctx, p):
     st = ctx.fail_stack or []
     names = [s.split('::')[-1] for s in st if not s.startswith('bb')]
@@ -150,7 +180,23 @@ def run(fw):
     g += [{'stage': 'eval', 'ctx': c, 'n': n} for c in CONTEXTS for n in ((1,) if quick else (1, 2))]
     fw.bounds['garbage'] = '%d contexts with 1..%d (tokenizer) / 1..%d (parser + evaluator) fully symbolic ASCII bytes (0x01..0x7f) spliced in' % (len(CONTEXTS), 2 if quick else 3, 1 if quick else 2)
     fw.explore('garbage', harness_garbage, g, fuel=400_000_000)
+    nest = [{'kind': k, 'depth': 5 if quick else 7} for k in NEST]
+    fw.bounds['nesting_cost'] = 'parser steps for nesting depth 1..%d of %s: increments bounded by 4x the first increment (bounded execution; a proxy for termination, which symbolic execution cannot decide)' % (5 if quick else 7, ', '.join(NEST))
+    fw.explore('nesting-cost', harness_nesting, nest, fuel=3_000_000_000)
     for v in fw.violations:
+        if v['key'].startswith('C04:nesting-cost'):
+            import subprocess, tempfile, time
+            with tempfile.TemporaryDirectory(prefix='ucg-verif-c04-') as d:
+                open(os.path.join(d, 'n.ucg'), 'w').write(v['case']['text'])
+                t0 = time.time()
+                try:
+                    fw.native().cli(['build', 'n.ucg'], d, timeout=v['case']['limit_s'])
+                    v['reproduced'] = False
+                except subprocess.TimeoutExpired:
+                    v['reproduced'] = True
+                v['native'] = {'seconds': round(time.time() - t0, 1), 'limit_s': v['case']['limit_s']}
+            fw.replayed += 1
+            continue
         v['judge'] = judge
     fw.assumptions += ['dev profile (overflow-checks on), as the native dev build and the test suite use; release builds wrap instead of panicking on overflow',
                        'std/alloc calls are abstract-datatype builtins (listed); Display of symbolic numbers is opaque']
